@@ -117,7 +117,7 @@ def show(t, depth=0):
 
 class State(object):
     __slots__ = ("mem", "conds", "effects", "refine", "wver", "ctr", "loopcnt", "loopinfo", "loopstack",
-                 "stack", "notes", "types")
+                 "stack", "notes", "types", "arglists")
 
     def __init__(self):
         self.mem = {}
@@ -132,6 +132,7 @@ class State(object):
         self.stack = ()
         self.notes = []
         self.types = {}         # term -> ADT it was matched as (lets trait calls on its payloads be resolved)
+        self.arglists = frozenset()     # list literals that reached a function as an argument (its loops stay parametric)
 
     def copy(self):
         s = State.__new__(State)
@@ -147,6 +148,7 @@ class State(object):
         s.stack = self.stack
         s.notes = list(self.notes)
         s.types = dict(self.types)
+        s.arglists = self.arglists
         return s
 
     def fresh(self):
@@ -509,6 +511,13 @@ class Engine(object):
             for n, v in fs:
                 if n == name:
                     return v
+        if k == "resp" and name == "messages" and not any(h == "base" for h, _ in t[2]):
+            # the messages of a response whose construction is known (`inner.messages` forwarded by a wrapper): single entries
+            # as a list; a response that took a whole collection keeps that collection
+            if all(h in ("msg", "submsg") for h, _ in t[2]):
+                return ("list", tuple(m for _, m in t[2]))
+            if len(t[2]) == 1:
+                return t[2][0][1]
         return ("field", t, name)
 
     def read_loc(self, st, loc, path):
@@ -888,6 +897,31 @@ class Engine(object):
             return self.item_value_adt(t[1][1][1])
         return None
 
+    def collection_type(self, entry_path, t):
+        """declared type of a message field / stored struct field a term reads (`msg?Execute.msgs` -> "Vec<CosmosMsg<T>>"), else None"""
+        def field_ty(adt, variant, f):
+            a = self.facts.adt(adt) if adt else None
+            if not a:
+                return None
+            for v in a["variants"]:
+                if variant is None or v["name"] == variant:
+                    for fd in v["fields"]:
+                        if fd["name"] == f:
+                            return fd["ty"]
+            return None
+        if not isinstance(t, tuple) or not t:
+            return None
+        if t[0] == "vfield" and t[1][0] == "param":
+            b = self.facts.bodies.get(entry_path)
+            if b is not None:
+                for i in range(1, b.argc + 1):
+                    if b.locals[i].get("name") == t[1][1]:
+                        return field_ty(b.locals[i].get("adt"), t[2], t[3])
+            return None
+        if t[0] == "field":
+            return field_ty(self.term_adt(t[1]), None, t[2])
+        return None
+
     def canon_struct(self, adt, fs):
         """`S { f: new, ..base }` (or the same thing spelled field by field / after destructuring) and `base.f = new`
         summarise to the same term: a literal of type S some of whose fields are `base.<same name>` for one stored value
@@ -968,6 +1002,9 @@ class Engine(object):
         if a is not None and adt not in (OPTION, RESULT, CFLOW):
             st.types[t] = adt
         known = st.refine.get(t)
+        feasible = st.refine.get(("only", t))
+        if feasible is not None:
+            only = set(feasible) if only is None else (set(only) & set(feasible))
         if a is None:
             # unknown ADT table: best effort for Option / Result
             names = {OPTION: [("None", []), ("Some", ["0"])], RESULT: [("Ok", ["0"]), ("Err", ["0"])]}.get(adt)
@@ -1030,6 +1067,12 @@ class Engine(object):
             self._tyenv[fid] = tyenv
         for i, a in enumerate(args):
             st.mem[(fid, i + 1)] = a
+            if depth > 0 and body.kind == "fn":
+                # a function that loops over a parameter is summarised for any list, also where a caller happens to pass a literal:
+                # its loops keep the shape the rules know from its other callers (closures see their definer's literals as their own)
+                v = self.val(st, a) if isinstance(a, tuple) and a and a[0] == "ref" else a
+                if isinstance(v, tuple) and v and v[0] == "list" and v[1]:
+                    st.arglists = st.arglists | {v}
         self.stat_bodies.add(body.path)
         old_stack = st.stack
         st.stack = old_stack + (body.path,)
@@ -1123,7 +1166,7 @@ class Engine(object):
             for l in sorted(info["assigned"]):
                 v = st.mem.get((fid, l))
                 if isinstance(v, tuple) and v and ((v[0] == "list" and len(v[1]) <= 8) or v[0] == "default") \
-                        and "Iter" in body.locals[l].get("ty", ""):
+                        and "Iter" in body.locals[l].get("ty", "") and v not in st.arglists:
                     mode = "unrolled"       # (the Default of a collection is the empty collection)
             st.loopinfo[mkey] = mode
         if mode == "unrolled":
